@@ -74,9 +74,45 @@ def run(m, chk):
         a = c.args[0].get("nodes") if c.args else None
         if a is not None and ("P", 1) in a.all_dep():
             node_spans.append(c)
+    from .c08 import path_facts
+
+    def bounded_by_knots(nid):
+        """every path that avoids span(node) established `a <= node <(=) b` with both bounds taken from the knot data
+        (a cached span is reused)"""
+        from .extra import path_facts_avoiding
+
+        for txt, pol in path_facts_avoiding(ctx, nid, {s.cfgnode for s in node_spans}):
+            try:
+                t = ast.parse(txt, mode="eval").body
+            except SyntaxError:
+                continue
+            if pol and isinstance(t, ast.Compare) and len(t.ops) == 2 and all(isinstance(o, (ast.Lt, ast.LtE)) for o in t.ops):
+                mid = t.comparators[0]
+                if isinstance(mid, ast.Name) and all(isinstance(x, ast.Subscript) for x in (t.left, t.comparators[1])):
+                    return True
+        return False
+
     for h in horner:
         ok = any(ctx.cfg.dominates(s.cfgnode, h.cfgnode) for s in node_spans)
+        if not ok and node_spans:
+            # every path that avoids span(node) must have re-validated the node against two knots
+            avoid = {s.cfgnode for s in node_spans}
+            ok = h.cfgnode not in ctx.cfg.reachable(ctx.cfg.entry, exc=False, avoid=avoid) or bounded_by_knots(h.cfgnode)
         chk.ob("GATE-SPAN", f"{ESN}: `{seg(h.node, 40)}` only after `knotvector.span(node)`", ok, loc=r.loc(ctx, h.node), detail="" if ok else f"{ESN}: a basis value is computed at {r.loc(ctx, h.node)} without `knotvector.span(node)` having validated the node: a parameter outside the interval yields a value instead of ValueError", func=ESN, construct="evaluation without span(node)")
+    # 1a' span membership decided by comparisons is half-open on the right (right-continuity at interior knots)
+    from .divisions import reachable_functions
+
+    nho = 0
+    for q2 in reachable_functions(r, ["curves.Curve.eval", "functions.FunctionEvaluator.eval"]):
+        f2 = r.prog.func(q2)
+        for c in ast.walk(f2.node):
+            if isinstance(c, ast.Compare) and len(c.ops) == 2 and all(isinstance(o, (ast.Lt, ast.LtE)) for o in c.ops) and isinstance(c.left, ast.Subscript) and isinstance(c.comparators[1], ast.Subscript) and isinstance(c.comparators[0], ast.Name):
+                nho += 1
+                ok = isinstance(c.ops[0], ast.LtE) and isinstance(c.ops[1], ast.Lt)
+                chk.ob("HALF-OPEN", f"{q2}: `{seg(c, 50)}` is half-open on the right", ok, loc=f"{f2.module}.py:{c.lineno}",
+                       detail="" if ok else f"{q2}: the span membership test `{seg(c, 60)}` is not `a <= u < b`: a parameter equal to an interior knot is attributed to the span on its left, so the value there is the left limit instead of the right-continuous value (visible at knots of multiplicity degree+1 / degree 0)",
+                       func=q2, construct=f"span test not half-open: {seg(c, 40)}")
+    chk.floor("HALF-OPEN", "span membership comparisons on the evaluation path", nho, 1)
     # 1b span guarded
     sq = IKV + "span"
     c2 = r.root(sq)
@@ -108,4 +144,7 @@ def run(m, chk):
     arg_flow(r, chk, "ARG-FLOW", "curves.Curve.__eval", "eval_spline_nodes", "nodes", ["nodes"])
     arg_flow(r, chk, "ARG-FLOW", "curves.Curve.__eval", "eval_spline_nodes", "knotvector", ["self.knotvector"])
     rule_d(r, chk, ["curves.Curve.eval"], floor=4)
+    from .extra import poly_only
+
+    poly_only(r, chk, ["curves.Curve.__eval"], floor=1)
     r.pure("PURE", q, ["self", "nodes"])
